@@ -23,12 +23,12 @@ CLAIMED = {
             "DESIGN.md §4 C03"),
     "C04": ("exploration",
             "property-based testing (rapid): round trip write->read in three encodings, own header parser + size law, differential between encodings",
-            "Generated point clouds and triangle meshes (any index pattern, any subset of recognised and user-named attributes, 60 orders of magnitude) written by ply.Write / custom MeshWriters in ascii, LE and BE: the harness's own header parser checks that the header describes the body (byte/line/token counts, endianness named in the header text), ReadMesh must return the same topology, primitive count and per-corner values at the stored type's precision (float32 image exactly for binary, 1 float32 ulp for ascii text, 1/255 for 8-bit), nothing invented, and the three encodings must decode to the same mesh. Sub-check concurrent-writers: goroutines write meshes sharing attribute maps through default and custom writers; every output must equal the sequential bytes. Sub-check huge-meshes: 2^24+8 vertices with triangles naming vertex numbers a float32 cannot hold, one case per encoding. Sampling level.",
+            "Generated point clouds and triangle meshes (any index pattern, any subset of recognised and user-named attributes, 60 orders of magnitude) written by ply.Write / custom MeshWriters in ascii, LE and BE: the harness's own header parser checks that the header describes the body (byte/line/token counts, endianness named in the header text), ReadMesh must return the same topology, primitive count and per-corner values at the stored type's precision (float32 image exactly for binary, 1 float32 ulp for ascii text, 1/255 for 8-bit), nothing invented, and the three encodings must decode to the same mesh. Sub-check concurrent-writers: goroutines write meshes sharing attribute maps through default and custom writers; every output must equal the sequential bytes. One case in 25 carries 70..300 extra scalar attributes (records beyond 255 bytes). Sub-check count-sweep: every primitive count 1..4 000 (thorough 1..40 000) once. Sub-check huge-meshes: 2^24+8 vertices with triangles naming vertex numbers a float32 cannot hold, one case per encoding. Sampling level.",
             "Trusted: the harness header parser. Point clouds carry identity indices (format has no point index list); uchar scalars excluded in ascii (known finding ascii-uchar-scalar-raw, pinned reproducer).",
             "DESIGN.md §4 C04"),
     "C05": ("exploration",
             "property-based testing (rapid): write->read and read->write round trips against an independent strict OBJ parser; grammar-based text generator",
-            "Both directions: generated lists of 1..4 named meshes with independent attribute subsets and material-range partitions are written, parsed by the harness's own strict OBJ parser (index validity, groups, corner forms, usemtl placement) and read back (triangles in order, per-corner position/normal/uv at float32 precision, material per triangle); OBJ text from a grammar (v/vt/vn pools, g/usemtl in any legal arrangement, four corner forms, comments, CRLF) is loaded and re-saved and the face multiset must be unchanged. Sub-check huge-mesh: one mesh of 2^24+8 vertices whose triangles name vertex numbers beyond 2^24. Sub-check concurrent-*: 2-5 generated cases run at the same time on their own goroutines after each passed alone (no scratch state may be shared between calls). Sampling level.",
+            "Both directions: generated lists of 1..4 named meshes with independent attribute subsets and material-range partitions are written, parsed by the harness's own strict OBJ parser (index validity, groups, corner forms, usemtl placement) and read back (triangles in order, per-corner position/normal/uv at float32 precision, material per triangle); OBJ text from a grammar (v/vt/vn pools, g/usemtl in any legal arrangement, four corner forms, comments, CRLF) is loaded and re-saved and the face multiset must be unchanged. Group names include OBJ keywords and exporter defaults (default, off, g, usemtl, ...). Sub-check count-sweep: every triangle count 1..2 500 (thorough 1..25 000) once. Sub-check huge-mesh: one mesh of 2^24+8 vertices whose triangles name vertex numbers beyond 2^24. Sub-check concurrent-*: 2-5 generated cases run at the same time on their own goroutines after each passed alone (no scratch state may be shared between calls). Sampling level.",
             "Trusted: the harness OBJ parser. Domain: whitespace-free distinct names, >= 1 triangle per mesh, ranges partition the triangles, uniform corner form per group, absolute indices.",
             "DESIGN.md §4 C05"),
     "C06": ("exploration",
@@ -38,12 +38,12 @@ CLAIMED = {
             "DESIGN.md §4 C06"),
     "C07": ("exploration",
             "property-based testing (rapid): size law + independent 50-byte record parser, round trips mesh->bytes->mesh and bytes->Binary->bytes",
-            "Generated triangle meshes (any index pattern, +-normals, zero/degenerate triangles, 60 orders of magnitude) and raw well-formed STL byte strings: length == 84+50n, own record parser, positions bit-equal to the float32 image, facet normal = normalised mean / geometric normal (1e-6), Write(Read(bytes)) == bytes, WriteMesh(ReadMesh(bytes)) reproduces the records. Bytes reach the decoder through six reader behaviours (short reads). Sub-check large: 81..131 072 records (beyond one 4 096-byte buffer, 8 and 16 bits, exact multiples of 65 536); count-sweep: every record count 1..3 000 (thorough 1..45 000) once. Sub-check concurrent-*: 2-5 generated cases run at the same time on their own goroutines after each passed alone (no scratch state may be shared between calls). Sampling level.",
+            "Generated triangle meshes (any index pattern, +-normals, zero/degenerate triangles, 60 orders of magnitude) and raw well-formed STL byte strings: length == 84+50n, own record parser, positions bit-equal to the float32 image, facet normal = normalised mean / geometric normal (1e-6), Write(Read(bytes)) == bytes, WriteMesh(ReadMesh(bytes)) reproduces the records. Headers include printable, blank-padded text titles starting with 'solid'. Bytes reach the decoder through six reader behaviours (short reads). Sub-check large: 81..131 072 records (beyond one 4 096-byte buffer, 8 and 16 bits, exact multiples of 65 536); count-sweep: every record count 1..3 000 (thorough 1..45 000) once. Sub-check concurrent-*: 2-5 generated cases run at the same time on their own goroutines after each passed alone (no scratch state may be shared between calls). Sampling level.",
             "Trusted: the harness record parser; normals judged only when well-conditioned (stated band).",
             "DESIGN.md §4 C07"),
     "C08": ("exploration",
             "property-based testing (rapid): independent reference ENCODER emits files from the specification's grammar; expected mesh computed from the description",
-            "An independent reference encoder (harness/internal/plyref) emits PLY files with any property order, alias spellings, unrecognised scalars, comment/obj_info lines, CRLF headers, uchar/int/uint counts, int/uint indices, triangles and quads, optional texcoord list before/after the index list, in ascii/LE/BE; the decoded mesh must equal the mesh the specification assigns (vertex i = record i, 8-bit /255, quad fan (0,1,2)(0,2,3), per-face uvs per corner, nothing invented). Each file is delivered through one of six reader behaviours (whole, 1 byte per Read, half reads, 7-byte chunks, data with the final error, small bufio); one file in twelve has 100-400 vertices. One file in ~28 is wide (40..600 extra scalar properties: ascii lines of 1..15 KiB, binary records of kilobytes) or has a header comment line of 300..5 000 bytes. Sub-check huge-files: hand-built files of 2^24+8 vertices whose faces name vertex numbers beyond 2^24 (three encodings, uchar/int counts, int/uint indices). Sampling level.",
+            "An independent reference encoder (harness/internal/plyref) emits PLY files with any property order, alias spellings, unrecognised scalars, comment/obj_info lines, CRLF headers, uchar/int/uint counts, int/uint indices, triangles and quads, optional texcoord list before/after the index list, in ascii/LE/BE; the decoded mesh must equal the mesh the specification assigns (vertex i = record i, 8-bit /255, quad fan (0,1,2)(0,2,3), per-face uvs per corner, nothing invented). Each file is delivered through one of six reader behaviours (whole, 1 byte per Read, half reads, 7-byte chunks, data with the final error, small bufio); one file in twelve has 100-400 vertices. One file in ~28 is wide (40..600 extra scalar properties: ascii lines of 1..15 KiB, binary records of kilobytes) or has a header comment line of 300..5 000 bytes. Sub-check count-sweep: hand-built files for every vertex count 3..3 000 (thorough 3..30 000). Sub-check huge-files: hand-built files of 2^24+8 vertices whose faces name vertex numbers beyond 2^24 (three encodings, uchar/int counts, int/uint indices). Sampling level.",
             "Trusted: the reference encoder. One scalar type per group; uchar scalars excluded in ascii (known finding, pinned reproducer).",
             "DESIGN.md §4 C08"),
     "C09": ("exploration",
@@ -53,7 +53,7 @@ CLAIMED = {
             "DESIGN.md §4 C09"),
     "C10": ("exploration",
             "property-based testing (rapid) under the Go race detector, repeated under taskset CPU masks: visit-count / bit-identical-output / triangle-multiset differential against the sequential variants",
-            "Generated element counts (incl. fewer than workers, non-multiples), pool sizes 1..33, three topologies: every primitive/element visited exactly once with its own data, Modify*Parallel bit-identical to sequential; asymmetric marching fields inside one block or across boundaries: AddFieldParallel, AddFieldParallel2, MarchParallel give the sequential triangle multiset; fields carry 1..3 float1 functions, one case in four is a ball clipped by its domain on the last sample layer of a block. Thorough tier adds marching-blocks (a field covering a whole storage block, capsules 420 and 2050 cells long: more jobs than workers and than the job channel holds; 15-minute watchdog = 'hang'). The binary is race-instrumented; any race report while a case runs is a violation; campaigns run concurrently under taskset masks so NumCPU-sized pools vary. Schedules are sampled, not owned.",
+            "Generated element counts (incl. fewer than workers, non-multiples), pool sizes 1..33, three topologies: every primitive/element visited exactly once with its own data, Modify*Parallel bit-identical to sequential; asymmetric marching fields inside one block or across boundaries: AddFieldParallel, AddFieldParallel2, MarchParallel give the sequential triangle multiset; fields carry 1..3 float1 functions, one case in four is a ball clipped by its domain on the last sample layer of a block. Thorough tier adds marching-blocks (a field covering a whole storage block, capsules 420 and 2050 cells long: more jobs than workers and than the job channel holds; 15-minute watchdog = 'hang'). The binary is race-instrumented; any race report while a case runs is a violation; campaigns run concurrently under taskset masks (quick: all CPUs, 3 CPUs, 1 CPU; thorough also 7) so NumCPU-sized pools and single-CPU fallbacks vary. Schedules are sampled, not owned.",
             "Trusted: the Go race detector; callbacks are race-free. Rare interleavings are only sampled.",
             "DESIGN.md §4 C10"),
     "C11": ("exploration",
@@ -68,7 +68,7 @@ CLAIMED = {
             "DESIGN.md §4 C12"),
     "C13": ("exploration",
             "concurrent history recording with real goroutines + porcupine linearizability checking against a sequential model, under the Go race detector",
-            "Generated client scripts (2..6 goroutines x 3..10 operations, drawn yields, GOMAXPROCS 2..16) of UpdateParameter / ParameterData / Artifact on a graph with two producers over four parameters through shared and two-level nodes; invocation/response stamped by an atomic logical clock; porcupine must find a sequential order consistent with real time in which every artifact renders one whole parameter vector; race-instrumented binary, any race report or crash is a violation. The same histories are also issued as HTTP requests through the edit server's own handlers with autosave on (second verif hook, httptest). Sub-check typed-histories: string, float64 (0 and -0), point-list and file parameters (the file optionally given on the command line and untouched before the history), values repeated or unique. Schedules are sampled (24 000 + 6 000 + 12 000 histories quick), not owned.",
+            "Generated client scripts (2..6 goroutines x 3..10 operations, drawn yields, GOMAXPROCS 2..16) of UpdateParameter / ParameterData / Artifact on a graph with two producers over four parameters through shared and two-level nodes; invocation/response stamped by an atomic logical clock; porcupine must find a sequential order consistent with real time in which every artifact renders one whole parameter vector; race-instrumented binary, any race report or crash is a violation. The same histories are also issued as HTTP requests through the edit server's own handlers with autosave on (second verif hook, httptest). Sub-check int-histories: thirteen int parameters (node ids Node-0..Node-12, bare numeric message bodies, values 0..39) feeding one artifact, a final whole-state read after all clients finished. Sub-check typed-histories: string, float64 (0 and -0), point-list and file parameters (the file optionally given on the command line and untouched before the history), values repeated or unique. Schedules are sampled (24 000 + 6 000 + 12 000 histories quick), not owned.",
             "Trusted: porcupine v1.3.0, the Go race detector. Rare interleavings are only sampled.",
             "DESIGN.md §4 C13"),
     "C14": ("fault_enumeration",
@@ -78,7 +78,7 @@ CLAIMED = {
             "DESIGN.md §4 C14"),
     "C15": ("exploration",
             "property-based testing (rapid): .splat and splat-PLY round trips with per-field quantisation bounds; SPZ reference encoder with exact dequantisation oracle; exhaustive half-float grid",
-            "Generated splat clouds (exact +-1/0 rotation components, clamp-boundary colours, saturated opacities, float32 extremes) through .splat write/read (count, order, bit-exact positions, scale/colour/opacity/rotation within one quantisation step, own 32-byte record parser) and SplatPly export (own PLY row parser + ReadMesh, float32 exact); SPZ streams from a harness reference encoder (v1/v2, fractional bits 0..30, SH 0..3, arbitrary bytes) must decode to exactly the documented dequantised values; all 65536 half-float patterns enumerated. Sub-check large: 100..100 000 splats (boundary and log-uniform counts) through the three oracles (32 KiB gzip windows, 1 MiB batches). Sub-check concurrent-*: 2-5 generated cases run at the same time on their own goroutines after each passed alone (no scratch state may be shared between calls). Sampling level (+ one exhaustive grid).",
+            "Generated splat clouds (exact +-1/0 rotation components, clamp-boundary colours, saturated opacities, float32 extremes) through .splat write/read (count, order, bit-exact positions, scale/colour/opacity/rotation within one quantisation step, own 32-byte record parser) and SplatPly export (own PLY row parser + ReadMesh, float32 exact); SPZ streams from a harness reference encoder (v1/v2, fractional bits 0..30, SH 0..3, arbitrary bytes) must decode to exactly the documented dequantised values; all 65536 half-float patterns enumerated. Sub-checks count-sweep (every splat count 1..1 200, thorough 1..12 000, per codec) and million (one SPZ stream of 1.2 M points, one .splat file of 2^20+1). Sub-check large: 100..100 000 splats (boundary and log-uniform counts) through the three oracles (32 KiB gzip windows, 1 MiB batches). Sub-check concurrent-*: 2-5 generated cases run at the same time on their own goroutines after each passed alone (no scratch state may be shared between calls). Sampling level (+ one exhaustive grid).",
             "Trusted: the SPZ reference encoder and dequantisation formulas in harness/c15. Identity-indexed clouds; SPZ alpha linear as the loader documents.",
             "DESIGN.md §4 C15"),
     "C16": ("exploration",
@@ -93,17 +93,17 @@ CLAIMED = {
             "DESIGN.md §4 C17"),
     "C18": ("exploration",
             "property-based testing (rapid) + exhaustive small grids: closed-oriented-manifold validity predicate, closed-form inscribed-polyhedron volume, outward normals",
-            "All small parameter grids enumerated (rows 2..24 x columns 3..24, sides 3..64, every UV option subset) and larger counts/sizes sampled: after merging coincident positions every directed edge used once and matched, one component with Euler characteristic 2, positive volume equal (1e-9) to the closed form of the inscribed polyhedron derived from the parameters, strictly below and converging to the analytic volume (<1% from 32 counts), supplied normals outward on every incident face. Sampled counts include k*2^m-1, k*2^m, k*2^m+1 for 2^m in {256, 1 024, 4 096, 65 536} (cylinder to 70 000 sides, sphere to 4 100 rows or columns) and one case in four at an overall scale 1e-9..1e9 (all oracle tolerances are relative). Exhaustive on the grids, sampling above.",
+            "All small parameter grids enumerated (rows 2..24 x columns 3..24, sides 3..64, every UV option subset) and larger counts/sizes sampled: after merging coincident positions every directed edge used once and matched, one component with Euler characteristic 2, positive volume equal (1e-9) to the closed form of the inscribed polyhedron derived from the parameters, strictly below and converging to the analytic volume (<1% from 32 counts), supplied normals outward on every incident face. Sampled counts include k*2^m-1, k*2^m, k*2^m+1 for 2^m in {256, 1 024, 4 096, 65 536} (cylinder to 70 000 sides, sphere to 4 100 rows or columns) and one case in four at an overall scale 1e-9..1e9 (all oracle tolerances are relative). Every solid is judged after another solid of the same family with other parameters was built (no storage shared between results); sub-check concurrent-builders. Exhaustive on the grids, sampling above.",
             "Trusted: the closed forms in harness/c18 (derived from the vertex construction). Only capped solids are judged.",
             "DESIGN.md §4 C18"),
     "C19": ("exploration",
             "property-based testing (rapid): independent reference formulations (clamp, Minkowski sum via closest-point projection, golden-section min over the swept ball), constructed surface/cap/edge sample points",
-            "Generated shape parameters and point pairs constructed in every region (inside, surface, caps, edges, corners, axis, far): sign outside a 1e-9 band, zero on constructed surface points, 1-Lipschitz on pairs, exact distance for sphere/box/capsule/plane, set-operation sign laws for union/intersect/subtract (1..4 operands), Translate shift. Sub-check concurrent-*: 2-5 generated cases run at the same time on their own goroutines after each passed alone (no scratch state may be shared between calls). Sampling level (4.8e5 quick / 1.4e7 thorough cases).",
+            "Generated shape parameters and point pairs constructed in every region (inside, surface, caps, edges, corners, axis, far): sign outside a 1e-9 band, zero on constructed surface points, 1-Lipschitz on pairs, exact distance for sphere/box/capsule/plane, set-operation sign laws for union/intersect/subtract (1..4 operands), Translate shift; every field closure is also evaluated from four goroutines at once and must give the sequential values bit for bit. Sub-check concurrent-*: 2-5 generated cases run at the same time on their own goroutines after each passed alone (no scratch state may be shared between calls). Sampling level (4.8e5 quick / 1.4e7 thorough cases).",
             "Trusted: the reference formulations in harness/c19. Rounded cone within its definitional precondition, capsule with start != end.",
             "DESIGN.md §4 C19"),
     "C20": ("exploration",
             "property-based testing (rapid) with exact rational predicates (math/big behind a proven float filter); general position constructed with a margin",
-            "Generated point sets (uniform, clustered, near-collinear hulls, jittered grids, rings; scales 1e-3..1e4, offsets to 1e6, small y-extents) in constructed general position: vertex i = input i, one winding and non-zero area, pairwise exact non-overlap, no input point strictly inside a circumcircle, plus a non-vacuity condition (a Delaunay triangle whose circumdisk lies inside the hull must be returned). Sub-check concurrent-callers: 2-6 inputs triangulated at the same time, each judged by the full oracle. Sampling level.",
+            "Generated point sets (uniform, clustered, near-collinear hulls, jittered grids, rings; scales 1e-3..1e4, offsets to 1e6, small y-extents) in constructed general position: vertex i = input i, one winding and non-zero area, pairwise exact non-overlap, no input point strictly inside a circumcircle, plus a non-vacuity condition (a Delaunay triangle whose circumdisk lies inside the hull must be returned). Input slices carry 0..64 elements of spare capacity and must be unchanged after the call. Sub-check concurrent-callers: 2-6 inputs triangulated at the same time, each judged by the full oracle. Sampling level.",
             "Trusted: exact predicates in harness/c20 (self-tested against pure rationals). Hull completeness is not demanded.",
             "DESIGN.md §4 C20"),
 }
